@@ -98,12 +98,11 @@ func String(name string, n int) string { return string(Bytes(name, n)) }
 
 // Choose returns a structural choice in [0,k): gosym explores every value as a separate shape.
 func Choose(name string, k int) int {
-	v := int(next(name, "choose"))
-	if v < 0 || v >= k {
-		panic("VSYM-ASSUME-FAIL: choose out of range")
-	}
-	return v
+	return int(next(name, "choose") % uint64(k))
 }
+
+// Thorough reports whether the thorough tier is running (larger shapes).
+func Thorough() bool { return os.Getenv("VERIF_TIER") == "thorough" }
 
 func Assume(c bool) {
 	if !c {
